@@ -28,6 +28,16 @@ CHECKS = {
         "value(lhs) OP value(rhs) with OP the operator being defined; compound and ++/-- must be defined through the matching binary operator and return the right object. "
         "Equality of opcode, operand order and operand types implies equality of value for all inputs, so no values are sampled.",
    note="trusted: clang's resolution of built-in operators and implicit conversions; result *types* are pinned by the witness corpus (W-C16-types) when enabled", ref="3/C16"),
+ "C13": dict(level="other", technique="ownership typestate rules over the path-sensitive event model (field-complete move, release-before-overwrite, locked duplicate test, non-null refusal)",
+   text="Decides the per-operation steps from which the one-owner invariant follows by induction: sandbox_callback is non-copyable with a private registering constructor; move transfers and resets every field of the record; "
+        "move assignment, destructor and unregister() release exactly when a registration is held; register_callback tests and inserts one key under one lock after the CREATED check and builds the owner from the backend result; "
+        "unregister_callback swallows when not CREATED and otherwise erases exactly the key found; the bundled backends never return a null entry point. It does NOT explore register/unregister histories (that would be model checking).",
+   note="trusted: std::vector/std::find semantics; clang front end; engine. Third-party backends returning representation 0 are outside the refusal rule.", ref="3/C13"),
+ "C15": dict(level="other", technique="structural analysis of the token-table scan (freshness control dependence, bounds, cursor update) and ownership typestate of app_pointer",
+   text="Decides: token 0 reserved and cursor starting at 1; every returned token is control-dependent on find(token)==end() for the same token, bounded by the limit or the cursor, and the cursor moves past it; no returning fall-through; "
+        "existence abort checks in remove/lookup; get_app_pointer uses total_memory-1, checks the fabricated address and builds the owner from the same token; app_pointer moves/releases like a unique owner. "
+        "The complete reachable state space of the table is not enumerated (model-checking question).",
+   note="trusted: std::map semantics; clang front end; engine", ref="3/C15"),
 }
 NA_REASON = "check under construction in this revision (see DESIGN.md section 3 for the planned static rules); not claimed yet"
 
